@@ -547,8 +547,12 @@ impl EffectiveAuthority {
         }
         let mut obligations = self.baseline_obligations(permission);
         for statement in statements {
+            // An `allow` carries a classification ceiling like a Grant does
+            // (`candidate_matches`): above it the statement allows nothing.
             if statement.effect != "allow"
                 || !self.statement_matches(statement, permission, &resource, auth, &now)
+                || !(resource.is_space_scope()
+                    || reaches_classification(&statement.constraints, &resource))
             {
                 continue;
             }
@@ -858,6 +862,17 @@ async fn resolve_delegation(
     let constraints: AuthorityConstraints = parse_or_default(&delegation.constraints);
 
     if !delegation.parent_delegation.is_empty() {
+        // The delegator in the middle of a chain is never resolved as a
+        // Principal (the direct branch below gets that from
+        // `resolve_at_depth`): suspended or revoked, it confers nothing.
+        let delegator_is_live = store
+            .governance
+            .find_principal(&delegation.delegator_principal)
+            .await?
+            .is_some_and(|principal| principal.status == status::ACTIVE);
+        if !delegator_is_live {
+            return Ok(None);
+        }
         let Some(parent_id) = super::store::row_id_of(&delegation.parent_delegation) else {
             return Ok(None);
         };
